@@ -34,7 +34,9 @@ Inductive aval :=
 | AMemo (m : list (loc * aval))
 | AId (i : option loc)
 | AGen (ths : list (heap -> res (heap * aval)))
-| AProxy (target : aval).
+| AProxy (target : aval)
+| AClass (k : okind)                 (* a built-in container class as a value (PyOpsAliasIntake.v) *)
+| AList (xs : list aval).            (* a Python list of objects that are not heap values: Field instances *)
 
 Record aenv := {
   e_wattrs : loc -> option (list (pystr * aval));   (* _field_definition / _instance / _name of an allocated wrapper *)
